@@ -78,6 +78,21 @@ class Ctx:
                 {"reason": "case watchdog fired", "index": self.case_index, "case": case}
             )
         except Exception as err:  # pylint: disable=broad-except
+            # raised inside the library, in a place where the workload expects the call to
+            # succeed (every call that is allowed to fail is guarded where it is made): the
+            # operation failed, which is a violation of whatever the case was checking
+            tb, origin = err.__traceback__, ""
+            while tb is not None:
+                origin = tb.tb_frame.f_code.co_filename
+                tb = tb.tb_next
+            snapshot = os.environ.get("NUMPOLY_VERIF_SNAPSHOT", "\0")
+            if origin.startswith(snapshot) or ("/numpoly/" in origin and "/verif/" not in origin):
+                op = case.get("op") or case.get("fn") or case.get("kind") or "?" \
+                    if isinstance(case, dict) else "?"
+                self.violation({"op": op, "failure": exc_fact(err), "unguarded": True},
+                               f"the library raised where the workload expects success: "
+                               f"{type(err).__name__}: {err}\n{tb_short(err, 6)}", case)
+                return
             # an error of the harness itself is never a verdict
             self.count("harness_errors")
             if len(self.inconclusive) < 20:
